@@ -5,6 +5,10 @@ import CashewsVerif.Model.Tags
   case <batch> <nkeys> <reg>      reg = `-` or `k:t+t;k:t;...` (what `get_key_tags` yields per key)
   set K V TTL COND TAGS | incr K BY TTL TAGS | call K V TTL TAGS      TAGS = `-` or `t+t`
   get K | exists K | delete K | delmany K.. | delmatch K.. | deltags T.. | adv N | purge
+  early K LK X TTL E TAGS | soft K X TTL S TAGS | hit K KC X TTL TAGS CACHE_HITS UPDATE_AFTER
+                                  (a call of a function decorated with early / soft / hit: `Tags.earlyCall`, `softCall`,
+                                   `hitCall` decide from the model state which wrapper commands the decorator issues;
+                                   X = number of the token the body returns, LK / KC = lock / counter key)
   dump                            (debugging only)
 
 Answer: `model=<out>`; for `deltags` additionally the ghost verdict of the property on the state before
@@ -48,6 +52,16 @@ def parseOp? : List String → Option TOp
   | ["purge"] => some .purge
   | _ => none
 
+/-- decorated calls of the re-writing strategies: the commands they issue in state `s`, and the caller's answer -/
+def parseDecor? (cfg : Cfg) (s : St) : List String → Option (List TOp × Out)
+  | ["early", k, lk, x, ttl, e, tags] => do
+    pure (earlyCall cfg s (← k.toNat?) (← lk.toNat?) (← x.toNat?) (← parseTtl? ttl) (← e.toNat?) (← parseTags? tags))
+  | ["soft", k, x, ttl, e, tags] => do
+    pure (softCall cfg s (← k.toNat?) (← x.toNat?) (← parseTtl? ttl) (← e.toNat?) (← parseTags? tags))
+  | ["hit", k, kc, x, ttl, tags, ch, ua] => do
+    pure (hitCall cfg s (← k.toNat?) (← kc.toNat?) (← x.toNat?) (← parseTtl? ttl) (← parseTags? tags) (← ch.toNat?) (← ua.toNat?))
+  | _ => none
+
 def showNats (ks : List Nat) : String := ",".intercalate (ks.map toString)
 
 def showDl : Option Nat → String
@@ -69,7 +83,10 @@ def step' (d : DSt) (line : String) : DSt × String :=
   | ["dump"] => (d, dump d)
   | ws =>
     match parseOp? ws with
-    | none => (d, "bad-op")
+    | none =>
+      match parseDecor? d.cfg d.st ws with
+      | some (ops, out) => ({ d with st := Tags.exec d.cfg d.st ops }, s!"model={showOut out}")
+      | none => (d, "bad-op")
     | some op =>
       let r := Tags.step d.cfg d.st op
       let extra := match op with
